@@ -285,6 +285,18 @@ def runLaw (name e : String) (args : List String) : Option (String × String) :=
         let y ← entry e p1 q2
         pure (decide (l = x * y))
       pure (outBool m1 ++ "," ++ outBool m2, "true,true")
+  | "prepreuse", [a, b] => do
+      let a ← pFr a; let b ← pFr b
+      let m : Outcome String := do
+        let p := g1k a; let qv := g2k b
+        let pr ← Api.prepare qv
+        let e1 ← Api.preparedPairing pr p
+        let en ← Api.preparedPairing pr p.neg
+        let e2 ← Api.preparedPairing pr (p.add p)
+        let e1b ← Api.preparedPairing pr p
+        let ep ← Api.pairing p qv
+        pure (sBool (en * e1 == Fq12.one) ++ "," ++ sBool (e2 == e1 * e1) ++ "," ++ sBool (e1b == e1) ++ "," ++ sBool (e1 == ep))
+      pure (sOut id m, "true,true,true,true")
   | "identity", [o1, o2] => do
       let o1 ← pG1 o1; let o2 ← pG2 o2
       let one := Fq12.one
